@@ -91,6 +91,38 @@ pub fn all_responses(small: bool) -> Vec<Response> {
     v
 }
 
+/// A reader that hands out at most `chunk` bytes per call (a socket delivering a frame in pieces).
+struct Chunked {
+    data: Vec<u8>,
+    pos: usize,
+    chunk: usize,
+}
+impl std::io::Read for Chunked {
+    fn read(&mut self, buf: &mut [u8]) -> std::io::Result<usize> {
+        let n = buf.len().min(self.chunk).min(self.data.len() - self.pos);
+        buf[..n].copy_from_slice(&self.data[self.pos..self.pos + n]);
+        self.pos += n;
+        Ok(n)
+    }
+}
+
+/// The framed bytes must be received intact whatever the sizes of the pieces the reader delivers.
+fn short_reads(pipe: &[u8], body: &[u8]) -> Result<(), String> {
+    for chunk in [1usize, 2, 3, 7, 4096, 8192] {
+        // two frames back to back, so that a reader that leaves bytes behind desynchronises
+        let mut two = pipe.to_vec();
+        two.extend_from_slice(pipe);
+        let mut r = Chunked { data: two, pos: 0, chunk };
+        for nth in 0..2 {
+            let got = catch(|| tcp::read_message(&mut r))?.map_err(|e| format!("read_message failed with a reader delivering {chunk} byte(s) per call (frame #{nth}): {e}"))?;
+            if got != body {
+                return Err(format!("frame #{nth} not received as sent when the reader delivers {chunk} byte(s) per call ({} of {} bytes equal)", got.iter().zip(body.iter()).take_while(|(a, b)| a == b).count(), body.len()));
+            }
+        }
+    }
+    Ok(())
+}
+
 fn catch<T>(f: impl FnOnce() -> T) -> Result<T, String> {
     std::panic::catch_unwind(std::panic::AssertUnwindSafe(f)).map_err(|_| format!("PANIC: {}", crate::sqldrv::last_panic()))
 }
@@ -114,6 +146,7 @@ fn roundtrip_request(m: &Request) -> Result<(), String> {
     // framing over an in-memory pipe
     let mut pipe: Vec<u8> = vec![];
     catch(|| tcp::send_request(&mut pipe, m))?.map_err(|e| format!("send_request failed: {e}"))?;
+    short_reads(&pipe, &bytes)?;
     let mut cur = Cursor::new(pipe);
     let got = catch(|| tcp::recv_request(&mut cur))?.map_err(|e| format!("recv_request failed: {e}"))?;
     if got.to_bytes() != bytes {
@@ -138,6 +171,7 @@ fn roundtrip_response(m: &Response) -> Result<(), String> {
     }
     let mut pipe: Vec<u8> = vec![];
     catch(|| tcp::send_response(&mut pipe, m))?.map_err(|e| format!("send_response failed: {e}"))?;
+    short_reads(&pipe, &bytes)?;
     let mut cur = Cursor::new(pipe);
     let got = catch(|| tcp::recv_response(&mut cur))?.map_err(|e| format!("recv_response failed: {e}"))?;
     if got.to_bytes() != bytes {
